@@ -105,6 +105,7 @@ Consume ==
 (* closes; besides the per-lane inference above only "everything" is tried  *)
 (* (which lanes are closed shows only in `term`, i.e. when all are).        *)
 CloseAll ==
+  /\ TraceLog[pos].ev = "quiet"      \* needed only for lanes leaving, which is seen at `quiet`
   /\ stopst = "ing" /\ \E x \in LaneIds : Used(x) /\ ~qclosed[x]
   /\ qclosed' = [x \in LaneIds |-> qclosed[x] \/ Used(x)]
   /\ last' = [op |-> "closeall"]
